@@ -606,7 +606,7 @@ theorem mask_shr {n j : Nat} (h : j ≤ n) : (2 ^ n - 1) >>> j = 2 ^ (n - j) - 1
   rw [this, Nat.add_mul_div_left _ _ hj, Nat.div_eq_of_lt (by omega)]; omega
 
 /-- the three fields of a pattern -/
-theorem fields {F : FloatFmt} (hF : F.Valid) {x : Nat} (hx : x < 2 ^ F.bits) :
+theorem fields {F : FloatFmt} (hF : F.Valid) {x : Nat} (_hx : x < 2 ^ F.bits) :
     let E := expField F.spec x
     let f := fracField F.spec x
     E < 2 * F.emax ∧ f < 2 ^ (F.p - 1) ∧ absBits F x = E * 2 ^ (F.p - 1) + f ∧
@@ -654,7 +654,7 @@ theorem nan_inf_iff {F : FloatFmt} (hF : F.Valid) {x : Nat} (hx : x < 2 ^ F.bits
   · have h1 : (E + 1) * P ≤ (2 * F.emax - 1) * P := Nat.mul_le_mul_right _ (by omega)
     rw [Nat.add_mul] at h1
     constructor <;> apply key <;>
-      simp only [decide_eq_true_eq, Bool.and_eq_true, beq_iff_eq, bne_iff_ne, ne_eq, true_and] <;>
+      simp only [decide_eq_true_eq, Bool.and_eq_true, beq_iff_eq, bne_iff_ne, ne_eq] <;>
       constructor <;> intro h <;> omega
 
 
